@@ -496,6 +496,20 @@ def parseAct? (s : String) : Option (Act Rat) :=
 def parseActs? (s : String) : Option (List (Act Rat)) :=
   if s = "-" ∨ s = "" then some [] else (s.splitOn ";").mapM parseAct?
 
+/-- `Player.tol`, the default tolerance: the double `1e-8` -/
+def playerTol : Rat := (ratOfBits 0x3E45798EE2308C3A).getD 0
+
+/-- `if tol is None: tol = self.tol` — only `None` is replaced by the default; an explicit `0`
+    (or any other value) stays what it is -/
+def resolveTol (tol : Option Rat) : Rat :=
+  match tol with
+  | none => playerTol
+  | some t => t
+
+/-- a tolerance on the wire: `none` (argument omitted / `None`) or a number -/
+def parseTol? (s : String) : Option Rat :=
+  if s = "none" then some (resolveTol none) else (parseRat? s).map fun t => resolveTol (some t)
+
 def parseOptRats? (s : String) : Option (Option (List Rat)) :=
   if s = "none" then some none else (parseList? parseRat? s).map some
 
@@ -510,14 +524,14 @@ def parseOp? (s : String) : Option (Op Rat) :=
   | ["delm", p, a] => do pure (Op.delm (← parseInt? p) (← parseList? parseInt? a))
   | ["pv", i, o] => do pure (Op.pv (← parseNat? i) (← parseActs? o))
   | ["br", i, o, t, pert] => do
-    pure (Op.br (← parseNat? i) (← parseActs? o) (← parseRat? t) (← parseOptRats? pert))
+    pure (Op.br (← parseNat? i) (← parseActs? o) (← parseTol? t) (← parseOptRats? pert))
   | ["isbr", i, own, o, t] => do
-    pure (Op.isbr (← parseNat? i) (← parseAct? own) (← parseActs? o) (← parseRat? t))
-  | ["nash", p, t] => do pure (Op.nash (← parseActs? p) (← parseRat? t))
-  | ["dom0", i, a, t] => do pure (Op.dom0 (← parseNat? i) (← parseNat? a) (← parseRat? t))
-  | ["dompure", i, a, t] => do pure (Op.dompure (← parseNat? i) (← parseNat? a) (← parseRat? t))
+    pure (Op.isbr (← parseNat? i) (← parseAct? own) (← parseActs? o) (← parseTol? t))
+  | ["nash", p, t] => do pure (Op.nash (← parseActs? p) (← parseTol? t))
+  | ["dom0", i, a, t] => do pure (Op.dom0 (← parseNat? i) (← parseNat? a) (← parseTol? t))
+  | ["dompure", i, a, t] => do pure (Op.dompure (← parseNat? i) (← parseNat? a) (← parseTol? t))
   | ["domcert", i, a, t, x, y, v] => do
-    pure (Op.domcert (← parseNat? i) (← parseNat? a) (← parseRat? t)
+    pure (Op.domcert (← parseNat? i) (← parseNat? a) (← parseTol? t)
       (← parseList? parseRat? x) (← parseList? parseRat? y) (← parseRat? v))
   | ["profarr"] => some Op.profarr
   | ["reprof"] => some Op.reprof
